@@ -542,6 +542,10 @@ static int lzh_read_lens(struct kwajd_stream *lzh,
             READ_BITS_SAFE(c, 4); lens[i] = c;
         }
         break;
+
+    default:
+        /* not an encoding of code lengths: lens[] would be left unset */
+        return MSPACK_ERR_DATAFORMAT;
     }
     STORE_BITS;
     return MSPACK_ERR_OK;
